@@ -112,6 +112,7 @@ class Normalizer:
         self.memo = {}
         self.strip = strip_fma_provider
         self.opcomm = opcomm
+        self.lifted = set()      # private helpers returning Option<T> whose callers unwrap: the payload of `Some` is the call
 
     def norm(self, t):
         if type(t) is tuple:
@@ -127,6 +128,8 @@ class Normalizer:
             return self._f(a)
         if tg == "field":
             x, i = a[1], a[2]
+            if self.lifted and i == 0 and tag(x) == "downcast" and x[2] == "Some" and tag(x[1]) == "call" and x[1][1] in self.lifted:
+                return x[1]
             if tag(x) == "pneg":
                 return neg(self._node(("field", x[1], i)))
             if tag(x) == "agg" and i < len(x[2]) and x[2][i] is not None:
